@@ -45,6 +45,9 @@ fn alphabet(first_ttl: u8) -> Vec<Shape> {
         vec![Out::S, c(1), c(1)],
         vec![c(1), Out::S, c(1), c(1)],
         vec![c(1), Out::S, Out::S, c(2), c(1)],
+        // one host at two positions (the target answers two probes of a round; a routing loop)
+        vec![c(1), c(200), c(200)],
+        vec![c(200), c(1), c(200)],
     ] {
         v.push(Shape { first_ttl, outs, largest_ttl: None });
     }
